@@ -130,7 +130,11 @@ func laneSelect(c *ev.Ctx) {
 			}
 			continue
 		}
-		o := consume(rd, sh, &bufSched{fixed: bigBuf}, scratch, len(enc))
+		fl := &flight{id: id, mode: p.mode, algo: p.algo, data: enc, buf: "buf-1048576", lane: "A2"}
+		startFlightMonitor(c)
+		flights.Store(fl, fl)
+		o := consume(rd, sh, &bufSched{fixed: bigBuf}, scratch, len(enc), &fl.calls)
+		flights.Delete(fl)
 		ok := o.panicMsg == "" && o.err == io.EOF && string(o.out) == string(pay)
 		switch {
 		case o.panicMsg != "":
